@@ -407,3 +407,53 @@ def run_model_coqc(prop_id, header, terms, ints_per_case, shard_size=400, timeou
     with ThreadPoolExecutor(max_workers=NPROC) as ex:
         parts = list(ex.map(one, list(enumerate(chunks))))
     return [x for p in parts for x in p]
+
+
+def run_isolating(cmd, lines, timeout=3000, single_timeout=60):
+    """like run_sharded, but every case whose shard died is re-run alone, so that a crash is attributed to its input"""
+    out = run_sharded(cmd, lines, timeout=timeout)
+    died = [i for i, l in enumerate(out) if l is None or l.startswith('DIED')]
+    if died:
+        with ThreadPoolExecutor(max_workers=NPROC) as ex:
+            redo = list(ex.map(lambda i: run_single(cmd, lines[i], timeout=single_timeout), died))
+        for i, l in zip(died, redo):
+            out[i] = l
+    return out
+
+
+# ----------------------------------------------------------------------------- fresh expansion build (C20)
+def build_fresh_harness():
+    """a copy of /repo whose specification module is the macro invocation (specification_orig.rs) compiled with the
+    IN-TREE a2lmacros, and the same harness linked against it; returns the path of the binary"""
+    import shutil
+    fresh = os.path.join(BUILD, 'fresh')
+    frepo = os.path.join(fresh, 'repo')
+    os.makedirs(fresh, exist_ok=True)
+    rc, out = sh("rsync -a --delete --exclude target --exclude .git /repo/ %s/" % frepo, timeout=300)
+    if rc != 0:
+        raise CheckFailure('rsync of /repo failed: ' + out)
+    src = os.path.join(frepo, 'a2lfile', 'src')
+    shutil.copy(os.path.join(src, 'specification_orig.rs'), os.path.join(src, 'specification.rs'))
+    ct = os.path.join(frepo, 'a2lfile', 'Cargo.toml')
+    t = open(ct).read()
+    t = re.sub(r'\[dependencies\.a2lmacros\]\nversion = "[^"]*"', '[dependencies.a2lmacros]\npath = "../a2lmacros"', t)
+    open(ct, 'w').write(t)
+    lock = os.path.join(frepo, 'Cargo.lock')
+    if os.path.exists(lock):
+        os.remove(lock)
+    fh = os.path.join(fresh, 'implrun')
+    rc, out = sh("rsync -a --delete --exclude target %s/ %s/" % (HARNESS, fh), timeout=120)
+    ct = os.path.join(fh, 'Cargo.toml')
+    t = open(ct).read().replace('path = "/repo/a2lfile"', 'path = "%s/a2lfile"' % frepo)
+    open(ct, 'w').write(t)
+    lock = os.path.join(fh, 'Cargo.lock')
+    if os.path.exists(lock):
+        os.remove(lock)
+    cfg = os.path.join(fh, '.cargo', 'config.toml')
+    open(cfg, 'w').write('[net]\noffline = true\n')
+    target = os.path.join(BUILD, 'cargo-target-fresh')
+    rc, out = sh('cargo build --offline', cwd=fh, timeout=2400,
+                 env={'RUSTFLAGS': '--cfg %s' % GUARD, 'CARGO_TARGET_DIR': target})
+    if rc != 0:
+        raise CheckFailure('fresh-expansion build failed:\n' + out[-4000:])
+    return os.path.join(target, 'debug', 'implrun')
